@@ -424,3 +424,7 @@ TWINS = [
 ]
 MUTANTS.append(Mutant("to_unitless-equal-units-shortcut", [(UNITS, "                conv = rescale(unt/new_unit, pq.dimensionless)\n", "                if is_quantity(unt) and unt == new_unit:\n                    conv = 1.0\n                else:\n                    conv = rescale(unt/new_unit, pq.dimensionless)\n")], "C09-R3", "one-conversion-path"))
 
+
+# shared rule A3 (guarded helpers)
+MUTANTS.append(Mutant("is-quantity-other-class", [("chempy/units.py", 'if arg.__class__.__name__ == "Quantity":', 'if arg.__class__.__name__ == "UncertainQuantity":')], "C09-A3", "guarded-helper-changed"))
+TWINS.append(Twin("is-quantity-direct-return", [("chempy/units.py", '    if arg.__class__.__name__ == "Quantity":\n        return True  # this checks works even if quantities is not installed.\n    else:\n        return False\n', '    return arg.__class__.__name__ == "Quantity"\n')]))
